@@ -69,6 +69,7 @@ PoolPaths == { Base("r1"), Base("r4"), [Base("r3") EXCEPT !.path = <<"dyn", "/x/
 \* second path-sensitive universe: rules sharing a header condition (alone / inside a larger group), date and time / weekday windows
 PoolPaths2 == { [Base("r1") EXCEPT !.hdrs = <<H("X-K", "is_defined", "")>>],
                 [Base("r4") EXCEPT !.hdrs = <<H("X-J", "is_defined", ""), H("X-K", "is_defined", "")>>],
+                [Base("r2") EXCEPT !.hdrs = <<H("X-K", "is_defined", "")>>],      \* the same condition set as r1
                 [Base("r2") EXCEPT !.dates = <<W1>>], [Base("r3") EXCEPT !.times = <<TW>>, !.wds = <<"Sun">>] }
 \* insertion orders (VIEW ViewOrder): dynamic paths and hosts whose place in the regex trees depends on the order
 PoolOrders == { [Base("r1") EXCEPT !.path = <<"dyn", "/x/@m">>], [Base("r2") EXCEPT !.path = <<"dyn", "/x/@m/y">>],
